@@ -516,6 +516,16 @@ def gen_c02_spec(rng: random.Random) -> Dict[str, Any]:
         spec["backend"]["kind"] = "dummy_sub"
     elif r_b < 0.24:
         spec["backend"]["late"] = True
+    if rng.random() < 0.1:
+        # a task one of whose dependencies fails while it is resolved: an execution that failed, acknowledged like one
+        spec["deps"] = {"dx": {"style": rng.choice(["plain_async", "plain_sync", "agen"]), "raise_open": True, "subs": []},
+                        "dy": {"style": rng.choice(["gen", "acm"]), "subs": []}}
+        spec["tasks"] = {"t_depfail": {"fn": rng.choice(["async", "sync"]), "deps": rng.choice([["dx"], ["dy", "dx"]])}}
+        for m_ in msgs:
+            if m_["task"] in ("t_async", "t_sync") and m_.get("timeout") is None and rng.random() < 0.5:
+                m_["task"] = "t_depfail"
+                m_["beh"]["dur"] = []
+                m_["beh"].pop("sync_hold", None)
     if rng.random() < 0.2:
         spec["cfg"]["N"] = rng.randint(1, max(1, n))  # --max-tasks-per-child: the worker recycles after N messages
     if rng.random() < 0.3:
@@ -819,6 +829,20 @@ def gen_c04_spec(rng: random.Random, A: int, P: int) -> Dict[str, Any]:
                 m.pop("timeout", None)
                 if rng.random() < 0.7:
                     m["timeout"] = rng.choice([0.2, 0.3])
+    elif not sync_tasks and "tasks" not in spec and "mws" not in spec and rng.random() < 0.12:
+        # failing tasks re-sent by the retry middleware through a broker whose send takes time: the re-send is part of
+        # handling the failed message
+        spec["retry"] = {"default_count": 2, "default_label": False, "no_result_on_retry": rng.random() < 0.5, "pos": 0}
+        spec["kick_lat"] = rng.choice([0.5, 1.0, 2.0])
+        for m in msgs:
+            if m.get("kind", "valid") == "valid" and m["task"] == "t_async" and rng.random() < 0.6:
+                m["beh"]["out"] = "raise:ValueError"
+                m["labels"] = {"retry_on_error": True, "max_retries": 2}
+    if rng.random() < 0.15:
+        # options that govern the end of the worker's life must not change how much it takes while it lives
+        spec["cfg"]["W"] = rng.choice([0.2, 0.5, 1.0])
+    if rng.random() < 0.15:
+        spec["cfg"]["N"] = rng.randint(bound + 2, max(bound + 2, len(msgs)))
     if rng.random() < 0.1 and "stop_at" not in spec:
         spec["via"] = "api"
     if rng.random() < 0.3:
@@ -1331,7 +1355,8 @@ def gen_c07_spec(rng: random.Random) -> Dict[str, Any]:
         task = rng.choice(["t_async", "t_async", "t_sync"])
         beh = gen_beh(rng, ["ok", "ok", "raise", "raise", "noresult"], allow_genexit=True)
         m: Dict[str, Any] = {"at": ats[i], "task": task, "ackable": rng.random() < 0.5, "beh": beh,
-                             "labels": rng.choice([{}, {"a": 1}, {"s": "x", "f": 1.5, "b": True}, {"by": b"\xff\x00"}])}
+                             "labels": rng.choice([{}, {"a": 1}, {"s": "x", "f": 1.5, "b": True}, {"by": b"\xff\x00"},
+                                                   {"_trace": "t-9", "X-Taskiq-origin": "edge", "__n": 2}])}
         if task == "t_sync":
             beh["dur"] = []
         elif rng.random() < 0.45:
